@@ -144,6 +144,7 @@ func reflectAliases(c *Ctx, fn *ssa.Function, param ssa.Value) (map[ssa.Value]bo
 
 func checkC13(c *Ctx, r *Report) {
 	defer representationTestRule(c, r)
+	defer inheritedPolicyRule(c, r)
 	r.Assumption("maps and pointed-to objects shared by the struct may be modified by a failing Unpack (excluded by the property); top-level slice/array targets are written in place (the statement is about structs)")
 	r.Assumption("which fields are overwritten for which subset of settings is value-level and not decided")
 
@@ -507,5 +508,54 @@ func representationTestRule(c *Ctx, r *Report) {
 				}
 			}
 		})
+	}
+}
+
+// inheritedPolicyRule (R13g): the merging policy in force while a struct is unpacked — the global option given to
+// Unpack, or the tag of an enclosing field — applies to every field below that does not name a policy of its own.
+// accessField builds the options for a field's subtree: it replaces the handling only under a test that the tag
+// names one (cfgHandling != cfgDefaultHandling). Without the test every untagged field resets the policy to the
+// default, and AppendValues / PrependValues / ReplaceValues given to Unpack do nothing for struct fields.
+func inheritedPolicyRule(c *Ctx, r *Report) {
+	r.Rule("R13g", "accessField replaces options.configValueHandling only when the field's tag names a handling (tagOpts.cfgHandling != cfgDefaultHandling)", 1)
+	af := c.Func("", "accessField")
+	optsT := c.Named("", "options")
+	n := 0
+	Instrs(af, false, func(in ssa.Instruction) {
+		st, ok := in.(*ssa.Store)
+		if !ok {
+			return
+		}
+		nt, f, ok := FieldOf(st.Addr)
+		if !ok || nt != optsT || f != "configValueHandling" {
+			return
+		}
+		n++
+		named := false
+		for _, cd := range ExpandConds(DomConds(st.Block())) {
+			bo, isB := cd.V.(*ssa.BinOp)
+			if !isB || !(bo.Op == token.NEQ && cd.Truth || bo.Op == token.EQL && !cd.Truth) {
+				continue
+			}
+			for _, pair := range [][2]ssa.Value{{bo.X, bo.Y}, {bo.Y, bo.X}} {
+				if k, isK := ConstInt(pair[1]); isK && k == 0 {
+					for _, s := range append(Sources(pair[0]), pair[0]) {
+						if _, fn2, okF := FieldOf(s); okF && fn2 == "cfgHandling" {
+							named = true
+						}
+						if l, isL := s.(*ssa.UnOp); isL {
+							if _, fn2, okF := FieldOf(l.X); okF && fn2 == "cfgHandling" {
+								named = true
+							}
+						}
+					}
+				}
+			}
+		}
+		r.Check(named, "R13g", c.FnName(af), "policy replaced only when the tag names one", c.Pos(st.Pos()), "under tagOpts.cfgHandling != cfgDefaultHandling",
+			"accessField overwrites the handling in force with the tag's handling without testing that the tag names one: a field without a policy tag resets the policy to the default, so the global AppendValues / PrependValues / ReplaceValues given to Unpack (and the tag of an enclosing field) are ignored for struct fields — lists are merged index by index instead")
+	})
+	if n == 0 {
+		r.add("R13g", c.FnName(af), "policy replaced only when the tag names one", c.Pos(af.Pos()), Undecided, true, "accessField does not set options.configValueHandling")
 	}
 }
